@@ -261,6 +261,23 @@ scpi_result_t h_torture(World &w, const InstrOpts &o) {
         }
     }
 
+    // numbers made by the application itself (a stored set-point in a unit of the firmware's choosing, a special value),
+    // formatted for display: every unit, base and tag, whatever unit table the context has
+    {
+        scpi_number_t num;
+        memset(&num, 0, sizeof num);
+        num.special = FALSE;
+        num.unit = (scpi_unit_t) ((o.variant * 7 + n) % ((int) SCPI_UNIT_LITER + 1));
+        num.base = (int8_t) ((o.variant % 5 == 0) ? 16 : (o.variant % 7 == 0 ? 2 : 10));
+        num.content.value = (double) (o.variant - 100) * 0.37 * (double) n;
+        XBuf b1(tb);
+        (void) SCPI_NumberToStr(c, scpi_special_numbers_def, &num, b1.p, b1.n);
+        num.special = TRUE;
+        num.content.tag = (o.variant + n) % 12;
+        XBuf b2(tb);
+        (void) SCPI_NumberToStr(c, scpi_special_numbers_def, &num, b2.p, b2.n);
+    }
+
     // pass B: typed readers in rotation
     rewind();
     for (int k = 0; k < 24 && params_left(c); k++) {
@@ -475,6 +492,17 @@ void instrument_install(World &w, const InstrOpts &o) {
         SCPI_ResultInt32(ww.ctx, 20);
         return SCPI_RES_OK;
     });
+    // overlapping patterns, the general one first: the first match wins whatever was dispatched before
+    w.add_command("TEST:OVERlap:STATe?", [](World &ww) {
+        SCPI_ResultInt32(ww.ctx, 100);
+        return SCPI_RES_OK;
+    });
+    w.add_command("TEST:OVERlap#:STATe?", [](World &ww) {
+        int32_t ch[1] = {-1};
+        SCPI_CommandNumbers(ww.ctx, ch, 1, 1);
+        SCPI_ResultInt32(ww.ctx, 200 + ch[0]);
+        return SCPI_RES_OK;
+    });
     w.add_command("TEST:MULTi?", h_multi);
     w.add_command("TEST:NOREsponse?", [](World &) { return SCPI_RES_OK; });
     w.add_command("TEST:FAIL", [](World &) { return SCPI_RES_ERR; });
@@ -549,6 +577,7 @@ const char *HEADERS_PLAIN[] = {
     "*IDN?", "*OPC", "*OPC?", "*WAI", "*TST?", "*RST", "SYST:VERS?", "SYSTem:VERSion?", "TEST:TREEA?", "TEST:TREEB?", "test:treea?", ":TEST:TREEB?",
     "TEST:MULT?", "TEST:MULTi?", "TEST:NORE?", "TEST:FAIL", "TEST:FAIL?", "TEST:ERR", "TEST:BLKH?", "TEST:BLKD?", "TEST:BLKT?", "TEST:NULL", "TEST:NULL?", "TEST:NULL 1,2", "STUB", "STUB?", "VOLT?", "MEAS:VOLT?", "MEAS:VOLT:DC?",
     ":MEASure:VOLTage:DC?", "VOLT:AC?", "MEAS:VOLT:AC?", "SYST:COMM:TCPIP:CONTROL?", "TEST1:NUM2", "TEST:NUMbers", "TEST12:NUMB345",
+    "TEST:OVER:STAT?", "TEST:OVER2:STAT?", "TEST:OVERlap1:STATe?", "TEST:OVER:STAT?",
 };
 const char *HEADERS_STATUS[] = {
     "*CLS", "*ESR?", "*ESE?", "*STB?", "*SRE?", "SYST:ERR?", "SYST:ERR:NEXT?", "SYST:ERR:COUN?", "STAT:QUES?", "STAT:OPER?", "STAT:PRES", "STAT:QUES:ENAB?",
